@@ -558,6 +558,9 @@ func (c *connection) waitFlush() (err error) {
 	if dl := c.writeDeadline; dl > 0 {
 		timeout = time.Duration(dl - time.Now().UnixNano())
 		if timeout <= 0 {
+			// same as the timer path below: flush() has already registered write interest,
+			// remove it or the poller keeps sending the buffer behind the caller's back
+			c.operator.Control(PollRW2R)
 			return Exception(ErrWriteTimeout, c.remoteAddrString())
 		}
 	}
